@@ -126,6 +126,29 @@ def gen_case(rng: random.Random, cfg: str | None = None, max_nodes: int = 8, fra
     else:
         r = rng.random()
         spec["scale"] = None if r < 0.6 else [1.0] * ndim
+    if cfg == "seg":
+        # label dtype and magnitude of ids: products / casts of labels overflow only for large ids
+        # in narrow dtypes
+        r = rng.random()
+        base = 0 if r < 0.7 else (46400 if r < 0.85 else 70000)
+        spec["seg_dtype"] = rng.choice(["int32", "int32", "int64", "uint32"]) if base else rng.choice(["int64", "int64", "int32", "uint16", "uint32"])
+        if base:
+            spec["id_base"] = base
+            for x in nodes:
+                x["id"] += base
+            for e in edges:
+                e["u"] += base
+                e["v"] += base
+            spec["seg"] = [v + base if v else 0 for v in spec["seg"]]
+    elif nodes and rng.random() < 0.12:
+        # node id 0 is a legitimate id when there is no label array
+        victim = rng.choice(nodes)["id"]
+        for x in nodes:
+            if x["id"] == victim:
+                x["id"] = 0
+        for e in edges:
+            e["u"] = 0 if e["u"] == victim else e["u"]
+            e["v"] = 0 if e["v"] == victim else e["v"]
     spec["nodes"] = nodes
     spec["edges"] = edges
     if rng.random() < 0.2:
@@ -138,13 +161,14 @@ def gen_case(rng: random.Random, cfg: str | None = None, max_nodes: int = 8, fra
 def pick_node(rng, tracks, fresh_ok=False):
     ns = list(tracks.graph.nodes)
     if not ns or (fresh_ok and rng.random() < 0.08):
-        return rng.randrange(1, 60)
+        return getattr(tracks, "_verif_id_base", 0) + rng.randrange(1, 60)
     return rng.choice(ns)
 
 
 def fresh_node_id(rng, tracks) -> int:
+    base = getattr(tracks, "_verif_id_base", 0)
     while True:
-        n = rng.randrange(1, 80)
+        n = base + rng.randrange(1, 80)
         if n not in tracks.graph:
             return n
 
